@@ -216,7 +216,7 @@ def run(ctx):
     ctx.rule = ("R: every layout within the bound (path of frames x preamble x leaf), each with unique markers. V: random layouts of depth 3-5. "
                 "non-trivial = at least one directive, container or include frame")
     ctx.assumptions += ["docutils front end, pre-transform doctree; the true line is known by construction and double-checked by M's S clause"]
-    base = {"DevIncludePlusOne": False, "DevColonNested": False, "DevFirstLine": False, "DevRestoreToTop": False, "DevAttribution": False}
+    base = {"DevIncludePlusOne": False, "DevColonNested": False, "DevFirstLine": False, "DevRestoreToTop": False, "DevAttribution": False, "DevQuoteNoLine": False}
     runs = [("depth2", all_frames(), 2, [0, 2], LEAVES), ("depth3", small_frames(), 3, [0], LEAVES if not quick else ["para", "heading", "warn"])]
     if not quick:
         runs.append(("depth4", [frame(w) for w in ("quote", "list", "div", "inc")] + [frame("btick", "colon", 1, 1), frame("colon", "none", 0, 0), frame("colon", "yaml", 1, 0)], 4, [0], ["para", "warn"]))
@@ -236,7 +236,7 @@ def run(ctx):
         if rc.coverage.get(act, (0, 0))[0] == 0:
             raise tlc.MachineryFailure(f"Lines: action {act} never taken (vacuous)")
     ctx.add_tlc("Lines_cov", rc)
-    for dev in ("DevIncludePlusOne", "DevColonNested", "DevFirstLine", "DevRestoreToTop", "DevAttribution"):
+    for dev in ("DevIncludePlusOne", "DevColonNested", "DevFirstLine", "DevRestoreToTop", "DevAttribution", "DevQuoteNoLine"):
         rd = tlc.run("Lines", tlc.cfg(ctx, f"l_{dev}.cfg", {**base, dev: True, "Frames": "<-FramesV", "MaxDepth": 2, "Pres": {0}, "Leaves": {"para"}},
                                       invariants=["TrueLines"]), wd=ctx.wd, defs=fv)
         tlc.expect_violation(rd, "TrueLines", f"Lines {dev}")
@@ -394,7 +394,7 @@ _orig_run = run
 
 
 def run(ctx):       # noqa: F811  (wrap: flush the R mismatches through TLC before finishing)
-    base = {"DevIncludePlusOne": False, "DevColonNested": False, "DevFirstLine": False, "DevRestoreToTop": False, "DevAttribution": False}
+    base = {"DevIncludePlusOne": False, "DevColonNested": False, "DevFirstLine": False, "DevRestoreToTop": False, "DevAttribution": False, "DevQuoteNoLine": False}
     _orig_run(ctx)
     _flush_r(ctx, base)
 
